@@ -108,7 +108,7 @@ func addrOf(p mangos.Pipe, opt string) (net.Addr, error) {
 
 func c13Addr(w *W) {
 	kind := []string{"pair", "bus", "req", "pub", "star", "xrep"}[w.Choose(simrt.SShape, 6)]
-	tran := []string{"sim", "simipc", "inproc", "tcp", "ipc", "tls+tcp"}[w.Choose(simrt.SShape, 6)]
+	tran := w.simFallback([]string{"sim", "simipc", "inproc", "tcp", "ipc", "tls+tcp"}[w.Choose(simrt.SShape, 6)])
 	w.SetShape("kind", kind)
 	w.SetShape("tran", tran)
 	w.UseNet(NetCfg{Segment: w.Choose(simrt.SShape, 2) == 0})
@@ -173,7 +173,7 @@ func c13Addr(w *W) {
 // state and unix peer credentials.
 func c13AddrReal(w *W) {
 	kind := []string{"pair", "bus", "req", "pub"}[w.Choose(simrt.SShape, 4)]
-	tran := []string{"tcp", "tls+tcp", "ipc", "ws", "wss"}[w.Choose(simrt.SShape, 5)]
+	tran := w.simFallback([]string{"tcp", "tls+tcp", "ipc", "ws", "wss"}[w.Choose(simrt.SShape, 5)])
 	w.SetShape("kind", kind)
 	w.SetShape("tran", tran)
 	srv, cli := tlsConfigs()
